@@ -174,7 +174,11 @@ def run(ctx):
                     fail="with a shell the CLI builds the command string as %s" % sh.get("command"))
         ctx.require(sh.get("args") in ("Vec::new()", "Vec::<T>::new()"), "R18.5", "cli-shell-no-extra-args", "the CLI passes no extra shell arguments", ic.loc(ic.line), detail=str(sh))
         so = [n for n in thir.find(root, "adt") if n.get("adt", "").endswith("SpawnOptions")]
-        sof = {k: pathx.desc(v) for k, v in so[0]["f"]} if len(so) == 1 else {}
+        pathx.SUBST = pathx.let_substitutions(root)     # `let grouped = matches!(..); SpawnOptions { grouped, .. }` is the same literal
+        try:
+            sof = {k: pathx.desc(v) for k, v in so[0]["f"]} if len(so) == 1 else {}
+        finally:
+            pathx.SUBST = {}
         ctx.require(sof == {"grouped": "PartialEq::eq(args.command.wrap_process, Group)", "session": "PartialEq::eq(args.command.wrap_process, Session)"}, "R18.5", "cli-wrap-mode",
                     "--wrap-process=group / session select the grouped / session spawn options, whatever the shell mode", ic.loc(ic.line), detail=str(sof),
                     fail="the CLI derives the group/session spawn options from more than --wrap-process (%s): in some mode the command is not placed in its own group or session" % sof)
